@@ -958,11 +958,18 @@ func subObjectHazards(p *Program, eff *Effects, fn *ssa.Function) (int, []Findin
 			s = eff.Summary(fn)
 		}
 		hz := s.HazBetween(0, i)
+		pos := token.NoPos
+		if len(hz) > 0 {
+			pos = s.Haz[hz[0]]
+		} else if sb := s.SubBetween(0, i); len(sb) > 0 {
+			hz = sb
+			pos = s.Sub[sb[0]]
+		}
 		if len(hz) == 0 {
 			continue
 		}
 		h := hz[0]
-		hits = append(hits, Finding{fn, s.Haz[h], fmt.Sprintf("sub-object(param#%d)", i-1),
+		hits = append(hits, Finding{fn, pos, fmt.Sprintf("sub-object(param#%d)", i-1),
 			fmt.Sprintf("%s: the operand %s (%s) may point to a component of the receiver; the receiver is written at %s%s and %s%s is read afterwards: with %s inside the receiver the later reads see the new value", funcKey(fn), fn.Params[i].Name(), types.TypeString(st, func(*types.Package) string { return "" }), fn.Params[0].Name(), h.W.Path, fn.Params[i].Name(), h.R.Path, fn.Params[i].Name())})
 	}
 	return n, hits
